@@ -372,12 +372,12 @@ Fixpoint set_field (fs : list (nat * value)) (k : nat) (v : value) : list (nat *
   | (k0, v0) :: r => if Nat.eqb k0 k then (k0, v) :: r else (k0, v0) :: set_field r k v
   end.
 
-Inductive outcome := Stored | Raised | NotAParameter.
+Inductive outcome := Stored | Raised | NotAnArgument.
 
 (* config.k = v  (k: position of a declared argument of the node's class) *)
 Definition cfg_set (cl : classes) (n : node) (k : nat) (v : value) : node * outcome :=
   match nth_error (class_args cl (n_cls n)) k with
-  | None => (n, NotAParameter)
+  | None => (n, NotAnArgument)
   | Some d =>
       match assign cl d (n_sealed n) false v with
       | Err => (n, Raised)
@@ -448,6 +448,27 @@ Fixpoint run (ob : value -> list nat) (cl : classes) (h : heap)
           if mem m vis then run ob cl h f vis rest
           else run ob cl h f (m :: vis) (actions_of ob cl h m ++ rest)
       end
+  end.
+
+(* The same method as it is written, recursive (fuel bounds the recursion depth);
+   proofs/Types_lemmas.v shows that whatever it answers, `run` answers.          *)
+Fixpoint validate_rec (ob : value -> list nat) (cl : classes) (h : heap)
+                      (fuel : nat) (vis : list nat) (m : nat) : option vres :=
+  match fuel with
+  | O => None
+  | S f =>
+      if mem m vis then Some (VOk vis)                       (* if not self._validated: *)
+      else
+        (fix go (acts : list action) (vis : list nat) : option vres :=
+           match acts with
+           | [] => Some (VOk vis)
+           | AFail :: _ => Some (VErr vis)                   (* raise ValueError *)
+           | AVisit k :: r =>
+               match validate_rec ob cl h f vis k with       (* value.__xpm__.validate() *)
+               | Some (VOk vis') => go r vis'
+               | other => other
+               end
+           end) (actions_of ob cl h m) (m :: vis)            (* self._validated = True *)
   end.
 
 (* enough fuel: one step per pending action *)
